@@ -13,6 +13,7 @@ import (
 	"github.com/biogo/hts/tabix"
 
 	"verif/core"
+	"verif/gen"
 	"verif/oracle"
 )
 
@@ -409,7 +410,12 @@ func c15Bytes(r *core.Result, rng *rand.Rand, kind string, geom int) {
 	var qs [][3]int
 	max := 1 << uint(m+3*d)
 	for i := 0; i < nref; i++ {
-		qs = append(qs, [3]int{i, 0, max - 1})
+		if c := gen.SpanCap(m, d); c > 0 {
+			b := rng.Intn(max-1) / c * c
+			qs = append(qs, [3]int{i, b, b + c})
+		} else {
+			qs = append(qs, [3]int{i, 0, max - 1})
+		}
 		for k := 0; k < 12; k++ {
 			b := rng.Intn(max - 1)
 			e := b + 1 + rng.Intn(1<<uint(m+2))
